@@ -32,7 +32,7 @@ TRUSTED = [
     "nver (number of version-table statements per step) and createVT/dropVT are read from the implementation run and passed to the model as parameters; the theorems hold for every value of them",
 ]
 RULE = (
-    "dialect x transactional_ddl override x transaction_per_migration x history x command(upgrade/downgrade/stamp) "
+    "(dialect_name for 5 dialects | live SQLite connection, fresh or already in a transaction) x transactional_ddl override x transaction_per_migration x history x command(upgrade/downgrade/stamp) "
     "x bodies with 0-2 autocommit blocks; a case is non-trivial when the plan has >=1 step; distinct by "
     "(dialect, override, per_migration, token stream)"
 )
@@ -80,7 +80,25 @@ def tokenise(text, rev_index):
     return toks, unknown
 
 
-def run_impl(dialect, override, per_mig, hist, cmd, target, start_rows, bodies):
+_ENGINES = {}
+
+
+def _live_connection(in_txn):
+    """a real SQLite connection handed to configure(); optionally already inside a transaction
+    (SQLAlchemy 2.0 autobegins on the first statement)"""
+    from sqlalchemy import create_engine, text
+
+    eng = _ENGINES.get("sqlite")
+    if eng is None:
+        eng = _ENGINES["sqlite"] = create_engine("sqlite://")
+    conn = eng.connect()
+    if in_txn:
+        conn.execute(text("select 1"))
+        assert conn.in_transaction()
+    return conn
+
+
+def run_impl(dialect, override, per_mig, hist, cmd, target, start_rows, bodies, conn_mode=None):
     """returns dict(toks, migs(for the model), dropVT, tddl, steps) or dict(err=...)"""
     buf = io.StringIO()
     holder = {}
@@ -132,13 +150,21 @@ def run_impl(dialect, override, per_mig, hist, cmd, target, start_rows, bodies):
         opts["transactional_ddl"] = override
     if start_rows:
         opts["starting_rev"] = start_rows if len(start_rows) > 1 else start_rows[0]
-    ctx = MigrationContext.configure(dialect_name=dialect, opts=opts)
+    conn = None
+    if conn_mode is None:
+        ctx = MigrationContext.configure(dialect_name=dialect, opts=opts)
+    else:
+        conn = _live_connection(conn_mode == "in-txn")
+        ctx = MigrationContext.configure(connection=conn, opts=opts)
     holder["ctx"] = ctx
     try:
         with ctx.begin_transaction():
             ctx.run_migrations()
     except Exception as e:  # resolution errors etc.: not this property's business
         return {"err": revfake.exc_class(e)}
+    finally:
+        if conn is not None:
+            conn.close()
     # index of each step
     rev_index = {}
     migs = []
@@ -198,10 +224,12 @@ def gen_case(rng, max_n):
     return hist, cmd, target, rows, gen_bodies(rng, hist)
 
 
-def one_case(ctx, dialect, override, per_mig, hist, cmd, target, rows, bodies, pending):
+def one_case(ctx, dialect, override, per_mig, hist, cmd, target, rows, bodies, pending, conn_mode=None):
     inp = {"dialect": dialect, "override": override, "perMig": per_mig, "hist": hist, "cmd": cmd,
-           "target": target, "rows": rows, "bodies": {k: [list(s) for s in v] for k, v in bodies.items()}}
-    r = run_impl(dialect, override, per_mig, hist, cmd, target, rows, bodies)
+           "target": target, "rows": rows, "bodies": {k: [list(s) for s in v] for k, v in bodies.items()},
+           "conn": conn_mode}
+    r = run_impl(dialect, override, per_mig, hist, cmd, target, rows, bodies, conn_mode)
+    ctx.hist("configured_with", conn_mode or "dialect_name")
     ctx.evaluation()
     ctx.hist("dialect", dialect)
     ctx.hist("cmd", cmd)
@@ -219,7 +247,8 @@ def one_case(ctx, dialect, override, per_mig, hist, cmd, target, rows, bodies, p
 def flush(ctx, pending):
     ops = []
     for inp, r in pending:
-        base = {"tddl": r["tddl"], "perMig": inp["perMig"], "migs": r["migs"], "dropVT": r["dropVT"]}
+        base = {"tddl": r["tddl"], "perMig": inp["perMig"], "migs": r["migs"], "dropVT": r["dropVT"],
+                "connInTxn": inp.get("conn") == "in-txn"}
         ops.append({"op": "txn.offline", **base})
         ops.append({"op": "txn.spec", **base, "out": r["toks"]})
     ans = ctx.drv.ask(ops)
@@ -251,6 +280,12 @@ def run(ctx, n_cases=None, rng_name="main"):
             for ov in (None, True, False):
                 for pm in (False, True):
                     one_case(ctx, d, ov, pm, hist, cmd, target, rows, bodies, pending)
+        # offline mode configured with a live connection (SQLite is the only live backend here),
+        # fresh or already inside a transaction
+        for ov in (None, True, False):
+            for pm in (False, True):
+                for cm in ("fresh", "in-txn"):
+                    one_case(ctx, "sqlite", ov, pm, hist, cmd, target, rows, bodies, pending, conn_mode=cm)
         if len(pending) > 3000:
             flush(ctx, pending)
     flush(ctx, pending)
@@ -272,10 +307,11 @@ def replay(ctx, case):
     inp = case["input"]
     bodies = {k: [tuple(s) for s in v] for k, v in inp["bodies"].items()}
     tgt = tuple(inp["target"]) if isinstance(inp["target"], list) else inp["target"]
-    r = run_impl(inp["dialect"], inp["override"], inp["perMig"], inp["hist"], inp["cmd"], tgt, inp["rows"], bodies)
+    r = run_impl(inp["dialect"], inp["override"], inp["perMig"], inp["hist"], inp["cmd"], tgt, inp["rows"], bodies, inp.get("conn"))
     if "err" in r:
         return {"impl": r}
-    base = {"tddl": r["tddl"], "perMig": inp["perMig"], "migs": r["migs"], "dropVT": r["dropVT"]}
+    base = {"tddl": r["tddl"], "perMig": inp["perMig"], "migs": r["migs"], "dropVT": r["dropVT"],
+            "connInTxn": inp.get("conn") == "in-txn"}
     m = ctx.drv.ask1({"op": "txn.offline", **base})
     s = ctx.drv.ask1({"op": "txn.spec", **base, "out": r["toks"]})
     return {"impl_tokens": r["toks"], "model_tokens": m.get("toks"), "spec": s, "script": r["text"]}
